@@ -158,6 +158,54 @@ def classify(exp, got):
     return "c03-points"
 
 
+def place_batch(files, variants):
+    """(xml, offs) per file; with `variants` the XML is a structural variant (comments, processing instructions,
+    prefixed E57 namespace) rendered by the EXTRACTED Spec/XmlRender.render under choices derived from a seed
+    (attribute order, quotes, blanks in tags, self-closing, CDATA or escaped text, character references,
+    declaration, byte order mark).  The XML states offsets that depend on its own length: iterate to the fixpoint."""
+    n = len(files)
+    xl = [0] * n
+    done = [None] * n
+    tags = [[] for _ in range(n)]
+    for rnd in range(10):
+        todo = [i for i in range(n) if done[i] is None]
+        if not todo:
+            break
+        docs = {}
+        for i in todo:
+            entries, names, seed = files[i]
+            st, end = specgen.starts(entries, xl[i])
+            offs = [specgen.phys_of_log(s) for s in st]
+            xml = specgen.make_xml(entries, offs, names, core.Rng(seed))
+            if variants[i]:
+                xml, tags[i] = specgen.tree_variant(xml, core.Rng(seed ^ 0x5eed))
+            docs[i] = (xml, offs)
+        rl = [i for i in todo if variants[i]]
+        if rl:
+            out = core.run_cases(core.DRIVER, ["XMLRENDER %s %d" % (docs[i][0].hex(), 1 + files[i][2] % 1000003) for i in rl])
+            for i, o in zip(rl, out):
+                if o.startswith("r "):
+                    docs[i] = (bytes.fromhex(o[2:].strip()), docs[i][1])
+                    if "rendered" not in tags[i]:
+                        tags[i] = tags[i] + ["rendered"]
+                else:
+                    tags[i] = [t for t in tags[i] if t != "rendered"] + ["render-refused:" + o[:20]]
+        for i in todo:
+            xml, offs = docs[i]
+            if len(xml) == xl[i]:
+                done[i] = (xml, offs)
+            elif variants[i] and 0 < xl[i] - len(xml) <= 256 and rnd > 0:
+                # the rendering choices depend on the digits of the offsets, so the length need not settle:
+                # fill up to the length the offsets were computed for with blanks behind the root element
+                done[i] = (xml + b"\n" * (xl[i] - len(xml)), offs)
+            else:
+                xl[i] = len(xml) + (64 if variants[i] else 0)
+    if any(d is None for d in done):
+        raise core.InfraError("XML length did not reach a fixpoint")
+    return done, tags
+
+
+
 def process(rep, impl, impl_rel, cases, acc, allow_cross):
     """one batch: cases = [(entries | None, xml, offs, SPECENC line, replay | None)]"""
     stats, widths, residues, pads = acc["stats"], acc["widths"], acc["residues"], acc["pads"]
@@ -277,21 +325,24 @@ def run(rep, tier, rng, replay=None):
     acc = dict(stats=dict(files=0, illegal=0, driver_crashes=0, unfollowed=0, packets=0, index=0, ignored=0, empty_chunks=0, empty_data_packets=0,
                           nondata_first=0, nondata_last=0, xml_first=0, xml_middle=0, xml_last=0, zero_points=0, zero_width_records=0,
                           max_packets=0, bytes=0),
-               widths=set(), residues=set(), pads=set(), cross=0, n_dir=0, n_corr=0, read=0, corr=0, sample=None)
+               widths=set(), residues=set(), pads=set(), cross=0, xml_variants={}, n_dir=0, n_corr=0, read=0, corr=0, sample=None)
     if replay and replay.get("kind") == "spec-file":
         process(rep, impl, impl_rel, [(None, bytes.fromhex(replay["xml"]), replay["offs"], replay["spec_line"], replay)], acc, False)
     else:
         files = gen_files(rng, tier)
         batch = 400
         for b in range(0, len(files), batch):
-            cases = []
-            for entries, names, seed in files[b:b + batch]:
-                xml, offs, end = specgen.place(entries, names, seed)
-                cases.append((entries, xml, offs, spec_line(entries, xml), None))
+            chunk = files[b:b + batch]
+            variants = [(seed >> 7) % 5 < 3 for _, _, seed in chunk]       # 3 of 5 files get a variant XML
+            placed, tags = place_batch(chunk, variants)
+            cases = [(entries, xml, offs, spec_line(entries, xml), None) for (entries, names, seed), (xml, offs) in zip(chunk, placed)]
+            for t in tags:
+                for x in t:
+                    acc["xml_variants"][x.split(":")[0]] = acc["xml_variants"].get(x.split(":")[0], 0) + 1
             process(rep, impl, impl_rel, cases, acc, True)
     rep.cov.update(acc["stats"])
     rep.cov.update(widths_covered=len(acc["widths"]), section_start_residues_mod_1020=len(acc["residues"]), distinct_pads=len(acc["pads"]),
-                   layouts_cross_checked_by_vm_compute=acc["cross"], direct_failures=acc["n_dir"], correspondence_failures=acc["n_corr"],
+                   layouts_cross_checked_by_vm_compute=acc["cross"], xml_variants=acc["xml_variants"], direct_failures=acc["n_dir"], correspondence_failures=acc["n_corr"],
                    correspondence_files=acc["corr"], traces_validated_against_impl=acc["read"] + acc["corr"])
     if acc["sample"]:
         rep.sample(acc["sample"])
@@ -300,4 +351,7 @@ def run(rep, tier, rng, replay=None):
                        "at every position including first and last) x file layouts (blobs interleaved, section order, XML before/between/after the sections, extra padding, "
                        "section starts swept over residues modulo 1020), encoded by the extracted spec_encode_file and read by the real crate (debug + release): "
                        "XML, prototypes, record counts, every value, every blob byte must be as encoded; the extracted reader model must agree with the crate on the same files; "
-                       "three small layouts are also evaluated by vm_compute inside Coq and compared with the extracted encoder. distinct = distinct layouts")
+                       "three small layouts are also evaluated by vm_compute inside Coq and compared with the extracted encoder. "
+                       "The XML of 3 of 5 files is a variant: comments / processing instructions between elements, the E57 namespace bound to a prefix, default-valued "
+                       "type attributes omitted, then rendered by the extracted Spec/XmlRender.render under random choices (attribute order, quote style, blanks in tags, "
+                       "self-closing, CDATA or escaped text, character references, declaration, byte order mark); the oracle is unchanged. distinct = distinct layouts")
